@@ -557,6 +557,20 @@ fn check_connectivity(e: &mut Eval, check: &str, st: &State, case: &str, extra: 
             e.issue("neighbour_ids-duplicates", case, format!("[{}] cell {}: neighbour_ids = {:?}", route, i, got), rp());
         }
     }
+    // the accessors are functions of the cell's *value*: a cell copied out of the tessellation, and a cell of a cloned
+    // tessellation, answer like the cell in place
+    let copies: Vec<meshless_voronoi::VoronoiCell> = cells.to_vec();
+    let cloned = v.clone();
+    for i in 0..n {
+        let here: Vec<usize> = cells[i].neighbour_ids(v).collect();
+        let copy: Vec<usize> = copies[i].neighbour_ids(v).collect();
+        let clone: Vec<usize> = cloned.cells()[i].neighbour_ids(&cloned).collect();
+        let cross: Vec<usize> = cloned.cells()[i].neighbour_ids(v).collect();
+        if copy != here || clone != here || cross != here || copies[i].face_indices(v) != cells[i].face_indices(v) || cloned.cells()[i].face_indices(&cloned) != cells[i].face_indices(v) {
+            e.issue("accessors-depend-on-where-the-cell-is-stored", case, format!("[{}] cell {}: neighbour_ids in place {:?}, of a copy {:?}, of the cloned tessellation {:?} / {:?}", route, i, here, copy, clone, cross), rp());
+            break;
+        }
+    }
 }
 
 pub fn eval_c12(st: &State) -> Eval {
@@ -806,6 +820,22 @@ pub fn eval_c13(st: &State) -> Eval {
             }) {
                 Err(p) => panic_issue(&mut e, check, st, &case, &extra, &p, "with_faces / Voronoi::from"),
                 Ok((wv, wvc)) => {
+                    // the with-faces route stores what its own integrals give (bitwise), and everything that does not
+                    // depend on the decomposition (generator, safety radius) is the direct build's
+                    if wvc.len() == sel.len() && wv.cells().len() == n {
+                        for (k, &i) in sel.iter().enumerate() {
+                            let c = &wv.cells()[i];
+                            if wvc[k].volume.to_bits() != c.volume().to_bits() || !bits_eq(wvc[k].centroid, c.centroid()) {
+                                e.issue("with-faces-cell-integrals-vs-stored", &case, format!("cell {}: VolumeCentroidIntegral on the integrator with faces gives {:e}, Voronoi::from of the same integrator stores {:e}", i, wvc[k].volume, c.volume()), rp());
+                                break;
+                            }
+                            let d = &direct.cells()[i];
+                            if c.safety_radius().to_bits() != d.safety_radius().to_bits() || !bits_eq(c.loc(), d.loc()) {
+                                e.issue("with-faces-safety-radius-or-generator", &case, format!("cell {}: safety radius {:e} / generator {} through the integrator with faces, {:e} / {} in the direct build", i, c.safety_radius(), fmt_vec(c.loc()), d.safety_radius(), fmt_vec(d.loc())), rp());
+                                break;
+                            }
+                        }
+                    }
                     if wv.cells().len() != n || wv.faces().len() != direct.faces().len() {
                         e.issue("with-faces-structure", &case, format!("{} cells / {} faces with faces, {} / {} without", wv.cells().len(), wv.faces().len(), n, direct.faces().len()), rp());
                     } else {
